@@ -161,7 +161,14 @@ def run(prog):
                    and (_peel(cs.args[0]) == m or _map_id(te, cs.bb, cs.args[0]) == mid)]
             if not ins:
                 continue
-            ret_t = canon.beta(prog, te.ret)
+            def norm(t_, f_=f):
+                # a private helper of the same type with a plain body (`with_polarity_of(p, r)`) is read as its body
+                try:
+                    t_ = canon.inline_local(prog, t_, lambda h: h.impl_self == f_.impl_self and "{closure" not in h.npath and h is not f_)
+                except Exception:
+                    pass
+                return canon.beta(prog, t_)
+            ret_t = norm(te.ret)
             hit = canon.payload(("call", g.callee, tuple(g.args)))
             hit_s = show(_peel(hit))
 
@@ -180,7 +187,8 @@ def run(prog):
             signed = any((mir.is_call(x, "is_neg") and x[2] and _peel(x[2][0]) == p) or
                          (x[0] == "as" and _peel(x[1]) == p and x[2] in COMPL | REGULAR)
                          for cs_ in te.calls for a_ in list(cs_.args) + [cs_.term] for x in mir.subterms(a_)) or \
-                any(x[0] == "as" and _peel(x[1]) == p and x[2] in COMPL | REGULAR for x in mir.subterms(te.ret))
+                any(x[0] == "as" and _peel(x[1]) == p and x[2] in COMPL | REGULAR for x in mir.subterms(te.ret)) or \
+                any(mir.is_call(x, "is_neg") and x[2] and _peel(x[2][0]) == p for x in mir.subterms(ret_t))
             if not signed:
                 continue
             rets = _leaves(ret_t)
@@ -220,8 +228,8 @@ def run(prog):
                             contra = True
                     if contra:
                         continue
-                    V = specialise(te, canon.beta(prog, cs.args[2]), p, s)
-                    after = [specialise(te, canon.beta(prog, a), p, s) for a in _returned_after(f, te, te.ret, cs.bb, split=False)]
+                    V = specialise(te, norm(cs.args[2]), p, s)
+                    after = [specialise(te, norm(a), p, s) for a in _returned_after(f, te, te.ret, cs.bb, split=False)]
                     if not after:
                         und.append("no return after the insertion at line %d" % cs.line)
                         continue
